@@ -97,7 +97,7 @@ GSpec == GInit /\ [][GNext]_gvars
 Complete == AllFinished /\ run = 0
 
 Emit == Complete =>
-          CSVWrite("%1$s", <<ToJson([np |-> Cardinality(Procs), plan |-> plan, steps |-> hist])>>, OutFile)
+          CSVWrite("%1$s", <<ToJson([np |-> Cardinality(Procs), plan |-> plan, zero |-> zk, steps |-> hist])>>, OutFile)
 
 (* Sanity of the generator itself. *)
 GenOK == /\ OnceOnly /\ SameResult
